@@ -222,7 +222,7 @@ def _report_shape():
         try:
             import json as _j, os as _o
             from ..leanio import ROOT as _R
-            _o.makedirs(_o.path.join(_R, "evidence"), exist_ok=True)
+            _o.makedirs(_o.path.join(_R, "evidence_extra"), exist_ok=True)
             _j.dump(SHAPE, open(_o.path.join(_R, "evidence_extra", "C11_shape.json"), "w"))
         except Exception:  # noqa
             pass
